@@ -25,6 +25,7 @@
  */
 
 #include <stdlib.h>
+#include <limits.h>
 #include <stdio.h>
 #include <string.h>
 #include <stdint.h>
@@ -96,6 +97,15 @@ static error_t parse_opt (int key, char *arg, struct argp_state *state) {
 }
 
 static struct argp argp = {options, parse_opt, args_doc, doc};
+
+/* part * 100 / whole without overflowing when the sizes are huge */
+static long long percent(ssize_t part, ssize_t whole) {
+    if(whole <= 0)
+        return 0;
+    if(part <= SSIZE_MAX / 100)
+        return part * 100 / whole;
+    return part / (whole / 100);
+}
 
 int main (int argc, char *argv[]) {
     struct arguments arguments = {0};
@@ -190,7 +200,7 @@ int main (int argc, char *argv[]) {
     }
     printf("Would download in total %lli of %lli bytes (%lli%%), %lli in the header and the rest in %lli chunks\n",
            (long long) dl_size, (long long) total_size,
-           (long long) (dl_size * 100 / total_size),
+           (long long) percent(dl_size, total_size),
            (long long) header_size,
            (long long) (zck_get_chunk_count(zck_tgt) - matched_chunks));
     printf("Matched %lli of %llu (%lli%%) chunks\n", (long long) matched_chunks,
